@@ -22,8 +22,14 @@ Fixpoint bytes_eqb (a b : bytes) : bool :=
 Definition o_wbytes (l : bytes) : otree :=
   if Nat.leb (length l) 300 then T [L 0; T (map L l)] else T [L 1; L (blen l); L (cksum l); T (map L (firstn 24 l))].
 
-Definition o_wres (r : res bytes) : otree :=
-  match r with Ok b => T [L 0; o_wbytes b] | Panic _ => T [L 1] | OutOfFuel => T [L 2] end.
+(* to_write returned Ok / panicked / returned Err (with what is in the writer by then) *)
+Definition o_wres (r : res wres) : otree :=
+  match r with
+  | Ok (WOk b) => T [L 0; o_wbytes b]
+  | Ok (WErr p) => T [L 3; o_wbytes p]
+  | Panic _ => T [L 1]
+  | OutOfFuel => T [L 2]
+  end.
 
 Definition run_C02 (c : case_C02) : otree :=
   match c with
@@ -31,11 +37,12 @@ Definition run_C02 (c : case_C02) : otree :=
       match run_iter start (bytes_of_segs segs) with
       | Ok (ms1, st1, _) =>
           match write_all ms1 with
-          | Ok b1 =>
+          | Ok (WErr p) => T [L 4; T (map o_msg ms1); o_wbytes p]
+          | Ok (WOk b1) =>
               match run_iter start b1 with
               | Ok (ms2, st2, rest2) =>
                   T [L 0; T (map o_msg ms1); o_wbytes b1; T (map o_msg ms2); o_ist st2; L (blen rest2);
-                     match write_all ms2 with Ok b2 => ob (bytes_eqb b1 b2) | _ => L 2 end]
+                     match write_all ms2 with Ok (WOk b2) => ob (bytes_eqb b1 b2) | _ => L 2 end]
               | _ => T [L 3]
               end
           | _ => T [L 2; T (map o_msg ms1)]
